@@ -233,8 +233,13 @@ def handle (fails : Item → Bool) (x : SideSt) (isWorker : Bool) : Frame → Si
                         got := upd x.got id (x.got id ++ [v]),
                         kept := upd x.kept id (x.kept id ++ [v]) }
       if fails v then
-        let x := if x.ioOpen then { x with out := x.out ++ [.closeErr id v.val], closeSent := upd x.closeSent id true } else x
-        localClose x id (some v.val) false
+        if x.ioOpen then
+          localClose { x with out := x.out ++ [.closeErr id v.val], closeSent := upd x.closeSent id true }
+            id (some v.val) false
+        else
+          -- the CLOSE_ERROR cannot be written any more: the OSError escapes the handler and ends the
+          -- receiver thread (generic-exception exit: epilogue without a remembered EOFError)
+          epilogue x false
       else x
     | none =>
       let c := x.chans id
